@@ -743,8 +743,13 @@ def r8(run, ctx):
             run.fail('R9', f, f.node, 'the configured timeout is never consulted: a lost reply '
                      'blocks the caller forever', construct='timeout unused in %s' % f.qualname)
         else:
+            # the poll is given the timeout - as is, or what is left of it (a value computed
+            # from it, seen through the locals)
+            from sa.dataflow import reaching_defs
+            rdc = reaching_defs(ctx, f)
             polls = [n for n in ctx.live_nodes(f) if any(
-                astq.call_last(c) == 'poll' and c.args and 'timeout' in norm_text(c.args[0])
+                astq.call_last(c) == 'poll' and c.args and
+                any('timeout' in a.text() for a in rdc.expand(n, c.args[0]))
                 for c in n.calls())]
             run.check('R9', bool(polls), 'the timeout bounds the receive', f, f.node)
 
